@@ -18,7 +18,6 @@ import (
 	"time"
 
 	"github.com/gr33nbl00d/caddy-revocation-validator/config"
-	"github.com/gr33nbl00d/caddy-revocation-validator/core/verifhook"
 	ocspchk "github.com/gr33nbl00d/caddy-revocation-validator/ocsp"
 	"go.uber.org/zap"
 
@@ -65,12 +64,21 @@ func workerC13(args []string) int {
 	}
 	fmt.Println("PHASE sigretry")
 	c13SigRetry(thorough)
+	if hungOnce.Load() {
+		return 0
+	}
 	fmt.Println("PHASE background")
 	c13Background(rng, thorough)
+	if hungOnce.Load() {
+		return 0
+	}
 	fmt.Println("PHASE ocsp")
 	c13Ocsp(rng, thorough)
 	fmt.Println("PHASE stress")
 	for _, disk := range []bool{false, true} {
+		if hungOnce.Load() {
+			return 0
+		}
 		if err := c13Stress(disk, rng, thorough, tracePath+"."+backendName(disk)); err != nil {
 			fmt.Println("WORKER-ERROR", err)
 			return 3
@@ -82,13 +90,22 @@ func workerC13(args []string) int {
 
 func init() { workers["c13race"] = workerC13 }
 
+// hungOnce: some call did not return. The objects involved hold their locks forever, so every further call would only wait out
+// its watchdog as well: the remaining calls of the worker are skipped and the HANG line decides.
+var hungOnce atomic.Bool
+
 func watchdog(name string, d time.Duration, f func()) {
+	if hungOnce.Load() {
+		return
+	}
 	done := make(chan struct{})
 	go func() { defer close(done); f() }()
 	select {
 	case <-done:
 	case <-time.After(d):
-		fmt.Printf("HANG %s did not return within %v\n", name, d)
+		if !hungOnce.Swap(true) {
+			fmt.Printf("HANG %s did not return within %v\n", name, d)
+		}
 	}
 }
 
@@ -111,7 +128,7 @@ func c13SigRetry(thorough bool) {
 		parked := make(chan struct{})
 		resume := make(chan struct{})
 		var once sync.Once
-		verifhook.Set(func(site string, kv ...any) {
+		world.SetHandler(func(site string, kv ...any) {
 			if site == "repo.add.unlocked" && len(kv) >= 3 {
 				if flag, _ := kv[2].(bool); flag {
 					first := false
@@ -144,7 +161,7 @@ func c13SigRetry(thorough bool) {
 		case <-time.After(30 * time.Second):
 			fmt.Println("HANG sigretry handshake did not return")
 		}
-		verifhook.Set(nil)
+		world.SetHandler(nil)
 		rw.close()
 	}
 }
@@ -172,7 +189,7 @@ func c13Background(rng *rand.Rand, thorough bool) {
 		}
 		// readers keep looking at the entry until the forced background pass has finished (and a little longer)
 		var forcedExits atomic.Int64
-		verifhook.Set(func(site string, kv ...any) {
+		world.SetHandler(func(site string, kv ...any) {
 			if site == "crl.update.exit" && len(kv) >= 2 {
 				if f, _ := kv[1].(bool); f {
 					forcedExits.Add(1)
@@ -197,10 +214,10 @@ func c13Background(rng *rand.Rand, thorough bool) {
 			}()
 		}
 		wg.Wait()
-		verifhook.Set(nil)
+		world.SetHandler(nil)
 		time.Sleep(20 * time.Millisecond)
 		watchdog("cleanup", 30*time.Second, func() { w.Cleanup() })
-		w.Destroy()
+		watchdog("destroy", 30*time.Second, func() { w.Destroy() })
 		org.Close()
 	}
 }
@@ -210,7 +227,7 @@ func c13Ocsp(rng *rand.Rand, thorough bool) {
 	cfg := ocspCfg(false, 1, "absent", []string{"good"}, []string{"revoked"})
 	w := newOcspWorld(cfg, rng.Int63())
 	defer w.close()
-	verifhook.Set(nil)
+	world.SetHandler(nil)
 	ch := &ocspchk.OCSPRevocationChecker{}
 	ch.Provision(&config.OCSPConfig{DefaultCacheDurationParsed: 15 * time.Millisecond}, zap.NewNop())
 	n := 30
@@ -261,7 +278,7 @@ func c13Stress(disk bool, rng *rand.Rand, thorough bool, tracePath string) error
 		events = append(events, e)
 		mu.Unlock()
 	}
-	verifhook.Set(func(site string, kv ...any) {
+	world.SetHandler(func(site string, kv ...any) {
 		// fires under the entry write lock: the linearization point of a swap
 		if site == "repo.swap.unlocking" || site == "repo.load.accepted" {
 			k := published.Load()
@@ -273,12 +290,12 @@ func c13Stress(disk bool, rng *rand.Rand, thorough bool, tracePath string) error
 			}
 		}
 	})
-	defer verifhook.Set(nil)
+	defer world.SetHandler(nil)
 	w, err := world.New(world.Cfg{Mode: "crl_only", Storage: backendName(disk), Sig: "verify", Fetch: "fetch_actively", Interval: "1h"})
 	if err != nil {
 		return err
 	}
-	defer w.Destroy()
+	defer watchdog("destroy", 30*time.Second, func() { w.Destroy() })
 	if err := w.Provision(); err != nil {
 		return err
 	}
